@@ -142,24 +142,38 @@ func (d *DeadlineChan[T]) Recv() (b T, err error) {
 		break
 	}
 
-	if d.closed.Load() {
-		err = io.EOF
-		return
-	}
-
-	errChan := d.deadline.Done()
-	select {
-	case <-errChan:
-		err = d.deadline.Err()
-		return
-	default:
+	if !d.closed.Load() {
+		errChan := d.deadline.Done()
 		select {
 		case <-errChan:
-			err = d.deadline.Err()
-			return
 		case b = <-d.C:
 			return
 		}
+	}
+
+	// Closed, expired or cancelled. Data that was queued before that happened
+	// still comes first: it may have arrived after the check at the top. The
+	// closed flag is read before the queue, so that end-of-stream is only
+	// reported when nothing queued before the close can still be in it.
+	for {
+		closed := d.closed.Load()
+		select {
+		case b = <-d.C:
+			err = nil
+			return
+		default:
+			break
+		}
+		if closed {
+			err = io.EOF
+			return
+		}
+		err = d.deadline.Err()
+		if err == io.EOF && d.closed.Load() {
+			// Close happened in between: look at the queue once more
+			continue
+		}
+		return
 	}
 }
 
